@@ -117,14 +117,15 @@ def _alarm(signum, frame):
 
 def run_parse(text, dialect):
     """-> ('ok', tree) | ('err', excclass, lineno) | ('bad', description)"""
-    old = signal.signal(signal.SIGALRM, _alarm)
-    signal.setitimer(signal.ITIMER_REAL, TIME_BUDGET)
+    # CPU time, not wall-clock time: machine load must not turn a slow parse into a verdict
+    old = signal.signal(signal.SIGVTALRM, _alarm)
+    signal.setitimer(signal.ITIMER_VIRTUAL, TIME_BUDGET)
     try:
         try:
             tree = env.parse(text, dialect)
         finally:
-            signal.setitimer(signal.ITIMER_REAL, 0)
-            signal.signal(signal.SIGALRM, old)
+            signal.setitimer(signal.ITIMER_VIRTUAL, 0)
+            signal.signal(signal.SIGVTALRM, old)
     except _Timeout:
         return ('bad', 'no-termination-within-%ds' % TIME_BUDGET)
     except error.PySmiLexerError as exc:
